@@ -440,7 +440,15 @@ func genKey(t *rapid.T) ([]byte, string) {
 
 func genValue(t *rapid.T) []byte {
 	var n int
-	switch rapid.IntRange(0, 9).Draw(t, "valLenKind") {
+	switch rapid.IntRange(0, 10).Draw(t, "valLenKind") {
+	case 10: // large values: a leaf or branch node far beyond the size of a full 16-child branch (~532 bytes of RLP)
+		n = rapid.SampledFrom([]int{255, 256, 257, 500, 530, 545, 550, 551, 560, 600, 1024, 2000, 5000}).Draw(t, "valLenBig")
+		v := bytes.Repeat([]byte{rapid.SampledFrom([]byte{0x00, 0x01, 0x7f, 0x80, 0xff}).Draw(t, "valFillBig")}, n)
+		v[n-1] = rapid.Byte().Draw(t, "valLastByte") // two large values may differ in their last byte only
+		if v[0] == 0 && rapid.Bool().Draw(t, "valFirstByte") {
+			v[0] = 1
+		}
+		return v
 	case 0, 1, 2, 3, 4:
 		n = rapid.SampledFrom([]int{1, 31, 32, 33, 200}).Draw(t, "valLen")
 	case 5, 6, 7, 8:
@@ -462,8 +470,12 @@ func valClass(n int) string {
 		return "vlen=" + strconv.Itoa(n)
 	case n < 200:
 		return "vlen=34..199"
-	default:
+	case n == 200:
 		return "vlen=200"
+	case n <= 540:
+		return "vlen=255..540"
+	default:
+		return "vlen>540(node_larger_than_a_full_branch)"
 	}
 }
 
